@@ -83,6 +83,11 @@ func Goid() int64 {
 	return id
 }
 
+// SetFilter / SetMapper / GetFilter change the global filter and mapper under the lock the hook handler reads them under.
+func SetFilter(f func(string) bool)         { mu.Lock(); Filter = f; mu.Unlock() }
+func SetMapper(m func(string, []any) []any) { mu.Lock(); Mapper = m; mu.Unlock() }
+func GetFilter() func(string) bool          { mu.Lock(); defer mu.Unlock(); return Filter }
+
 func handle(point string, kv ...any) {
 	kv = append(kv, "g", Goid())
 	mu.Lock()
